@@ -23,7 +23,16 @@ def bases(rng: random.Random) -> Dict[int, Dict[str, Any]]:
     b2["adj"][u][v] = b2["adj"][v][u] = 3 - b1["adj"][u][v]
     b3 = copy.deepcopy(b1)
     k = rng.randrange(b1["n"])
-    b3["lab"][k] = {1: 3, 2: 5}[b1["lab"][k]]          # C -> C+, O -> O-
+    if rng.random() < 0.5:
+        b3["lab"][k] = {1: 3, 2: 5}[b1["lab"][k]]          # C -> C+, O -> O-
+    else:                                                  # a look-alike of another size: one more atom hanging off atom k
+        n = b1["n"]
+        b3["n"] = n + 1
+        b3["lab"] = list(b1["lab"]) + [b1["lab"][k]]
+        if "hc" in b3:
+            b3["hc"] = list(b1["hc"]) + [0]
+        b3["adj"] = [list(row) + [0] for row in b1["adj"]] + [[0] * (n + 1)]
+        b3["adj"][k][n] = b3["adj"][n][k] = 1
     return {1: b1, 2: b2, 3: b3}
 
 
@@ -37,8 +46,14 @@ def cluster_case(inp):
     def attr_of(iso):
         return {"none": "x", "shared": "x", "perclass": f"a{iso}"}[style]
 
+    shared: Dict[int, Any] = {}
+
     def entry(iso):
+        # "share": several entries may carry the very same graph object (a list drawn with repetition from a pool)
+        if inp.get("share") and iso in shared and rng.random() < 0.6:
+            return {"gml": shared[iso], "sig": attr_of(iso), "_iso": iso}
         G, _ = gl.realise(gl.permuted(B[iso], rng), rng, with_hcount=False)
+        shared[iso] = G
         return {"gml": G, "sig": attr_of(iso), "_iso": iso}
     coder = gl.Coder()
 
@@ -109,7 +124,8 @@ def run(ctx: core.Ctx) -> None:
             continue
         seen.add(key)
         inputs.append({"lib": h["lib"], "items": h["items"], "attr": rng.choice(["none", "shared", "perclass"]) if h["lib"] == [] else rng.choice(["shared", "perclass"]),
-                       "batch_sizes": [0, 1, 2, -1, -2] if not h["lib"] else [0, 1, 2, -1], "seed": rng.randrange(10 ** 9)})
+                       "batch_sizes": [0, 1, 2, -1, -2] if not h["lib"] else [0, 1, 2, -1], "seed": rng.randrange(10 ** 9),
+                       "share": rng.random() < 0.3})
     ctx.exhaustive = True
     core.run_stage(ctx, S("all-arrival-histories", inputs))
     longer = []
@@ -117,7 +133,7 @@ def run(ctx: core.Ctx) -> None:
         n = rng.randint(6, 14)
         longer.append({"lib": rng.choice([[], [{"cls": 4, "iso": 2}], [{"cls": 1, "iso": 3}, {"cls": 9, "iso": 1}]]),
                        "items": [rng.randint(1, 3) for _ in range(n)], "attr": rng.choice(["shared", "perclass"]),
-                       "batch_sizes": [0, 3, 5, -1], "seed": rng.randrange(10 ** 9)})
+                       "batch_sizes": [0, 3, 5, -1], "seed": rng.randrange(10 ** 9), "share": rng.random() < 0.3})
     core.run_stage(ctx, S("random-multisets", longer))
 
 
